@@ -236,6 +236,14 @@ func (e *Event) Verify() (bool, error) {
 	}
 
 	// then check event signature
+	// Block signatures are free text inside the signed body and end up in
+	// Frames: refuse the ones that are not "<base36>|<base36>".
+	for _, bs := range e.Body.BlockSignatures {
+		if _, _, err := keys.DecodeSignature(bs.Signature); err != nil || !common.EncodableString(bs.Signature) {
+			return false, fmt.Errorf("malformed block signature")
+		}
+	}
+
 	pubBytes := e.Body.Creator
 	pubKey := keys.ToPublicKey(pubBytes)
 
